@@ -25,11 +25,12 @@ TECHNIQUE = ('property-based testing (Hypothesis): generated submodule trees '
              'spelling-metamorphic checks of project-defined arguments')
 RULE = ('(A) trees of 1-7 submodule scripts (depth <= 3, siblings, ../ '
         'references, a target-free common script included from several '
-        'parents) with generated variable names, exports and relative '
-        'inputs/outputs; non-trivial: depth >= 2 or a ../ reference or a '
+        'parents, a raising submodule whose exception the includer handles) '
+        'with generated variable names, exports and relative inputs/outputs; non-trivial: depth >= 2 or a ../ reference or a '
         'repeated inclusion; distinct = tree shape + reference kinds.  (B) '
         '1-5 argument() declarations (store with type/default, store_true, '
-        'enable, with; dashes in names) x command lines using plain and --x- '
+        'enable, with; dashes in names; optionally declared under two names) '
+        'x command lines using plain and --x- '
         'spellings, repeated options; non-trivial: a toggle or a dashed name '
         'given in --x- spelling; distinct = declaration kinds + spelling '
         'choices.')
